@@ -201,7 +201,7 @@ def judge(case, r, k, viol, obs, fault_free=False, reasons=None):
         obs['delivered_nothing'] += 1
     # originator side: only the EOM ack notification may be delivered
     for d in r['deliv_A']:
-        okk = (not fd and len(d[4]) == 8 and d[4][0] == 19) or (fd and len(d[4]) >= 12 and (d[4][0] & 0xF) == 3)
+        okk = M.norm_pgn(d[2]) == exp_pgn and len(r['deliv_A']) == 1       # the end-of-message acknowledgement notification (form not judged), once
         if not (okk and mode == 'cmdt' and d[3] == 0x20):
             viol.add('unexpected_delivery', '%s: originator listener got pgn=%05X sa=%02X len=%d' % (where, d[2], d[3], len(d[4])), **tag)
     # 2. M-TMO: every table entry disappears within bound of the node's last session activity
@@ -279,7 +279,7 @@ def judge(case, r, k, viol, obs, fault_free=False, reasons=None):
         for f in frames1:
             if f.src == 'A' and C.split_id(f.can_id)['pf'] == dt_pf and len(f.data) > 4:
                 a_dts.add(C.un_le(f.data[1:4]) if fd else f.data[0])
-        a_done = any(((not fd and len(d[4]) == 8 and d[4][0] == 19) or (fd and len(d[4]) >= 12 and (d[4][0] & 0xF) == 3)) for d in r['deliv_A'])
+        a_done = any(d[3] == 0x20 for d in r['deliv_A'])
         a_abort = [f for f, idf in aborts if f.src == 'A']
         b_abort = [f for f, idf in aborts if f.src == 'B']
         if not a_done and not a_got_abort and len(a_dts) < npk:
